@@ -64,7 +64,8 @@ def main(tier, seed):
             for k in range(1, n + 1):
                 for code in codes:
                     for buf in (0, 1):
-                        progs.append(["r3", "s", tld, "F%d:%d:%d" % (k, code, buf)] + ["e%d" % i for i in base] + ["m"])
+                        progs.append(["r3", "s", tld, "F%d:%d:%d" % (k, code, buf)] + (["a7ff"] if (k + buf) % 3 == 0 else []) +
+                                     ["e%d" % i for i in base] + ["m", "m"])
     # random multi-fault sequences with interleaved mode switches
     for _ in range(4000 if tier == "quick" else 200000):
         p = ["r3", "s"]
@@ -75,7 +76,7 @@ def main(tier, seed):
             elif r < 0.22:
                 p += ["r%d" % rng.randrange(4), "s"]
             elif r < 0.27:
-                p.append(rng.choice(["t0", "t1", "m", "f"]))
+                p.append(rng.choice(["t0", "t1", "m", "f", "a7ff", "a2", "ad", "a0"]))
                 if p[-1] == "f":
                     p += ["r3", "s"]
             else:
